@@ -64,6 +64,14 @@ def gen_spec(rnd, rules=True, delays=True):
         if delays and rnd.random() < 0.3:
             r["delay"] = gen.delay_spec(rnd, species, params, tag)
         rx.append(r)
+    # parameter names with a leading underscore are valid SBML identifiers too
+    for r in rx:
+        if r["type"] != "general" and rnd.random() < 0.12:
+            for key in ("k", "K", "n"):
+                v = r["fields"].get(key)
+                if isinstance(v, str) and v in params and not v.startswith("_") and rnd.random() < 0.7:
+                    params["_" + v] = params.pop(v)
+                    r["fields"][key] = "_" + v
     rl = []
     sp = {"species": species, "x0": {s: float(rnd.randint(0, 9)) if rnd.random() < 0.7 else float("%.4g" % rnd.uniform(0, 9)) for s in species},
           "params": params, "reactions": rx, "rules": rl}
@@ -90,7 +98,7 @@ def states_for(rnd, sp, integer):
 
 def generate(tier, seed):
     rnd = util.rng(PROPERTY, tier, seed, "cases")
-    n = 200 if tier == "quick" else 5000
+    n = 280 if tier == "quick" else 5000
     cases = []
     for i in range(n):
         sp = gen_spec(rnd)
@@ -156,6 +164,12 @@ def run_case(case):
             undefined = [n for n in names if n not in sids and n not in gpar and n not in loc and n not in comp]
             C["kinetic_laws_evaluated"] += 1
             tc[cl] += 1
+            if undefined and all(u.startswith("_") and u[1:] in gpar for u in undefined):
+                # mechanism: the writer strips a leading underscore from the parameter's id but not from its uses
+                viol.append({"key": "C14/leading-underscore-parameter",
+                             "msg": "reaction %d (%s %r): kinetic law %s refers to %r, but the parameter was written with id %r" % (
+                                 ri, r["type"], r["fields"], L.formulaToL3String(ast), undefined, [u[1:] for u in undefined])})
+                continue
             if undefined or sbmlref.ast_has_unknown_function(ast):
                 viol.append({"key": "C14/%s:undefined-identifier" % mech if not hill else "C14/hill-kinetic-law",
                              "msg": "reaction %d (%s %r): kinetic law %s refers to %r which the document does not define" % (
